@@ -10,6 +10,7 @@ from ..core import Op
 from ..rat import rat, frac
 from .. import evalgen as G
 from .. import leanio
+from .. import tagpool as TP
 from .. import symtrace as st
 from ..symtrace import Sym
 
@@ -129,6 +130,22 @@ def measured_affinity(g1, g2, tb, fb):
     return v
 
 
+def _tagreq(inp):
+    """the tag side of every model request: the pool as tag *contents* (read from the fields of the objects handed
+    to the code) and the vocabulary as pool positions; the class indices are computed by the Lean model of the
+    encoder, never by the library's"""
+    return {"pool": TP.model_pool(inp), "vocab": list(inp["vocab"])}
+
+
+def _mtags(e, pred):
+    """tags of a sound event for the model: pool positions; a predicted score as the float32 value stored"""
+    return [[t, G.f32(s)] for t, s in e["tags"]] if pred else list(e["tags"])
+
+
+def _mev(e, pred):
+    return {"id": e["id"], "geom": e["geom"] is not None, "tags": _mtags(e, pred)}
+
+
 def _both_closed(g1, g2):
     return _gtype(g1) in CLOSED and _gtype(g2) in CLOSED
 
@@ -136,15 +153,13 @@ def _both_closed(g1, g2):
 def _to_model_geo(inp):
     """request of `detection_geo`: geometries, the pairs the real matcher chose (the assignment solver's
     freedom), measured affinities for pairs without closed form"""
-    vocab = inp["vocab"]
     tb, fb = _buffers()
     ann_by = {}
     for c in inp["annotations"]:
         ann_by[c["clip"]] = c
 
     def ev(e, pred):
-        tags = [[G.enc(vocab, t), G.f32(s)] for t, s in e["tags"]] if pred else [G.enc(vocab, t) for t in e["tags"]]
-        return {"id": e["id"], "geom": G.geom_json(e["geom"]), "tags": tags}
+        return {"id": e["id"], "geom": G.geom_json(e["geom"]), "tags": _mtags(e, pred)}
     preds = []
     for c in inp["predictions"]:
         evs = c.get("events", [])
@@ -159,7 +174,7 @@ def _to_model_geo(inp):
                               for g1 in sg]
         preds.append(pc)
     anns = [{"clip": c["clip"], "events": [ev(e, False) for e in c.get("events", [])]} for c in inp["annotations"]]
-    return {"C": len(vocab), "tb": rat(tb), "fb": rat(fb), "predictions": preds, "annotations": anns}
+    return {**_tagreq(inp), "tb": rat(tb), "fb": rat(fb), "predictions": preds, "annotations": anns}
 
 
 def _compare_geo(inp, io, mo):
@@ -213,13 +228,60 @@ def _judge_clip(ctx, clip, pe, ae, matches):
 
 
 # ---------------------------------------------------------------- detection end to end
+def _positions(events, what):
+    """uuid -> position in the list handed to the code (the *input*, not what the result carries around)"""
+    out = {}
+    for i, e in enumerate(events):
+        out.setdefault(e.uuid, i)
+    return out
+
+
+def _canon_matches(matches, pidx, aidx, metrics=False):
+    ms = []
+    for m in matches:
+        x = {"src": None if m.source is None else pidx.get(m.source.uuid, "foreign"),
+             "tgt": None if m.target is None else aidx.get(m.target.uuid, "foreign"),
+             "affinity": G._num(m.affinity), "score": G._num(m.score)}
+        if metrics:
+            x["metrics"] = G._features(m.metrics)
+        ms.append(x)
+    return ms
+
+
 def _impl_detection(inp):
-    return {"val": G.canon_evaluation(G.run_task(inp))}
+    """`sound_event_detection` end to end; matches are located in the clips that were handed in"""
+    preds, anns, tags = G.build(inp)
+    with warnings.catch_warnings():
+        warnings.simplefilter("ignore")
+        ev = G.task_fn("sound_event_detection")(clip_predictions=preds, clip_annotations=anns, tags=tags)
+    clip_ids = {c.uuid: i for i, c in G._base()["clips"].items()}
+    pin = {c["clip"]: p for c, p in zip(inp["predictions"], preds)}
+    ain = {c["clip"]: a for c, a in zip(inp["annotations"], anns)}
+    clips = []
+    for ce in ev.clip_evaluations:
+        cid = clip_ids.get(ce.annotations.clip.uuid, "foreign")
+        pcid = clip_ids.get(ce.predictions.clip.uuid, "foreign")
+        pidx = _positions(pin[pcid].sound_events, "p") if pcid in pin else {}
+        aidx = _positions(ain[cid].sound_events, "a") if cid in ain else {}
+        clips.append({"clip": cid, "pclip": pcid, "metrics": G._features(ce.metrics), "score": G._num(ce.score),
+                      "matches": _canon_matches(ce.matches, pidx, aidx, metrics=True)})
+    return {"val": {"task": ev.evaluation_task, "metrics": G._features(ev.metrics), "score": G._num(ev.score),
+                    "clips": clips}}
 
 
 def _to_model_detection(inp):
-    req = G.to_model(inp)
-    return {"C": req["C"], "predictions": req["predictions"], "annotations": req["annotations"]}
+    ann_by = {}
+    for c in inp["annotations"]:
+        ann_by[c["clip"]] = c
+    preds = []
+    for c in inp["predictions"]:
+        pc = {"clip": c["clip"], "events": [_mev(e, True) for e in c.get("events", [])]}
+        a = ann_by.get(c["clip"])
+        if a is not None:
+            pc["matcher"] = G.matcher_answer(c.get("events", []), a.get("events", []))
+        preds.append(pc)
+    anns = [{"clip": c["clip"], "events": [_mev(e, False) for e in c.get("events", [])]} for c in inp["annotations"]]
+    return {**_tagreq(inp), "predictions": preds, "annotations": anns}
 
 
 def _compare_detection(inp, io, mo):
@@ -230,6 +292,8 @@ def _compare_detection(inp, io, mo):
 
 
 def all_unlabelled(inp):
+    pool = TP.descriptors(inp)
+    classes = {TP.ckey(pool[t]) for t in inp["vocab"]}
     annotated = {c["clip"]: c for c in inp["annotations"]}
     n = 0
     for c in inp["predictions"]:
@@ -238,21 +302,26 @@ def all_unlabelled(inp):
             continue
         n += len(c.get("events", [])) + len(a.get("events", []))
         for e in a.get("events", []):
-            if any(t in inp["vocab"] for t in e["tags"]):
+            if any(TP.ckey(pool[t]) in classes for t in e["tags"]):
                 return False
     return n > 0
 
 
-def _class_probability(vocab, ann_tags, pred_tags):
-    """probability the prediction gives to the annotation's class (independent of the model)"""
-    scores = {}
-    for t, s in pred_tags:
-        if t in vocab:
-            scores[t] = Fraction(float(np.float32(float(frac(s)))))
-    cls = next((t for t in ann_tags if t in vocab), None)
-    if cls is None:
-        return 1 - sum(scores.values())
-    return scores.get(cls, Fraction(0))
+def _pair_scores(ctx, inp, pairs):
+    """'the probability the prediction gives to the annotation's class' for (annotated event, predicted event)
+    pairs: `pairScoreSpec` of the Lean model (tag equality only; C08_pair_score_is_class_probability)"""
+    if not pairs:
+        return []
+    out = ctx.model("pair_score", {**_tagreq(inp), "pairs": [{"ann": _mtags(a, False), "pred": _mtags(p, True)}
+                                                              for a, p in pairs]})
+    return [frac(x["score"]) for x in out]
+
+
+def _foreign(matches, clip):
+    for x in matches:
+        if x["src"] == "foreign" or x["tgt"] == "foreign":
+            return f"a match names a sound event that is not in the clip that was evaluated (clip {clip})"
+    return None
 
 
 def _holds_detection(ctx, inp, io):
@@ -269,18 +338,29 @@ def _holds_detection_inner(ctx, inp, io):
     if "raise" in io:
         return f"sound_event_detection raised ({io['raise']})"
     ev = io["val"]
-    vocab = inp["vocab"]
     annotated = {c["clip"]: c for c in inp["annotations"]}
     expected = [c["clip"] for c in inp["predictions"] if c["clip"] in annotated]
     if [c["clip"] for c in ev["clips"]] != expected:
         return f"evaluated clips are not the predicted clips that are annotated: {[c['clip'] for c in ev['clips']]} instead of {expected}"
     pred_by = {c["clip"]: c for c in inp["predictions"]}
     clip_scores = []
+    # the expected score of every reported pair, in one request to the model
+    allp = []
+    for c in ev["clips"]:
+        if c["pclip"] != c["clip"] or _foreign(c["matches"], c["clip"]):
+            continue
+        pe, ae = pred_by[c["clip"]].get("events", []), annotated[c["clip"]].get("events", [])
+        allp += [(c["clip"], x["src"], x["tgt"], ae[x["tgt"]], pe[x["src"]]) for x in c["matches"]
+                 if x["src"] is not None and x["tgt"] is not None]
+    wants = dict(zip(((k, i, j) for k, i, j, _, _ in allp), _pair_scores(ctx, inp, [(a, p) for _, _, _, a, p in allp])))
     for c in ev["clips"]:
         if c["pclip"] != c["clip"]:
             return f"clip evaluation pairs annotations and predictions of different clips (clip {c['clip']})"
         pe = pred_by[c["clip"]].get("events", [])
         ae = annotated[c["clip"]].get("events", [])
+        msg = _foreign(c["matches"], c["clip"])
+        if msg:
+            return msg
         # the monitored contract of the matcher on this clip's filtered lists
         m = G.matcher_answer(pe, ae)
         ok = ctx.model("matcher_cover", {"n": sum(1 for e in pe if e["geom"] is not None),
@@ -319,7 +399,7 @@ def _holds_detection_inner(ctx, inp, io):
                     return f"paired sound events do not overlap: affinity {float(real)} (clip {c['clip']} match {(x['src'], x['tgt'])})"
                 if aff != real:
                     return f"match affinity is not the geometric affinity: {float(aff)} instead of {float(real)} (clip {c['clip']} match {(x['src'], x['tgt'])})"
-                want = _class_probability(vocab, a["tags"], p["tags"])
+                want = wants[(c["clip"], x["src"], x["tgt"])]
                 if sc != want:
                     return f"match score is not the probability of the annotation's class: {sc} instead of {want} (clip {c['clip']} match {(x['src'], x['tgt'])})"
             else:
@@ -344,32 +424,28 @@ def _impl_eval_clip(inp):
     import importlib
     D = importlib.import_module("soundevent.evaluation.tasks.sound_event_detection")
     from soundevent.evaluation.encoding import create_tag_encoder
-    full = {"task": "sound_event_detection", "vocab": inp["vocab"],
+    full = {"task": "sound_event_detection", "vocab": inp["vocab"], "tagpool": inp.get("tagpool"),
             "predictions": [{"clip": 0, "events": inp["preds"]}], "annotations": [{"clip": 0, "events": inp["anns"]}]}
     preds, anns, tags = G.build(full)
     with warnings.catch_warnings():
         warnings.simplefilter("ignore")
         ys, rows, ce = D.evaluate_clip(clip_annotations=anns[0], clip_predictions=preds[0], encoder=create_tag_encoder(tags))
-    pidx = {p.uuid: i for i, p in enumerate(ce.predictions.sound_events)}
-    aidx = {a.uuid: i for i, a in enumerate(ce.annotations.sound_events)}
+    pidx = _positions(preds[0].sound_events, "p")
+    aidx = _positions(anns[0].sound_events, "a")
     entries = []
     if not (len(ys) == len(rows) == len(ce.matches)):
         return {"val": {"entries": "length mismatch", "score": None}}
-    for y, row, m in zip(ys, rows, ce.matches):
-        entries.append({"src": None if m.source is None else pidx[m.source.uuid],
-                        "tgt": None if m.target is None else aidx[m.target.uuid],
-                        "affinity": G._num(m.affinity), "score": G._num(m.score),
-                        "y": None if y is None else int(y), "row": [G._num(v) for v in np.asarray(row).tolist()]})
+    for y, row, x in zip(ys, rows, _canon_matches(ce.matches, pidx, aidx)):
+        x["y"] = None if y is None else int(y)
+        x["row"] = [G._num(v) for v in np.asarray(row).tolist()]
+        entries.append(x)
+    if any(x["src"] == "foreign" or x["tgt"] == "foreign" for x in entries):
+        return {"val": {"entries": "foreign", "score": None}}
     return {"val": {"entries": sorted(entries, key=G.match_key), "score": G._num(ce.score)}}
 
 
 def _to_model_eval_clip(inp):
-    vocab = inp["vocab"]
-    return {"C": len(vocab),
-            "preds": [{"id": e["id"], "geom": e["geom"] is not None, "tags": [[G.enc(vocab, t), G.f32(s)] for t, s in e["tags"]]}
-                      for e in inp["preds"]],
-            "anns": [{"id": e["id"], "geom": e["geom"] is not None, "tags": [G.enc(vocab, t) for t in e["tags"]]}
-                     for e in inp["anns"]],
+    return {**_tagreq(inp), "preds": [_mev(e, True) for e in inp["preds"]], "anns": [_mev(e, False) for e in inp["anns"]],
             "matcher": G.matcher_answer(inp["preds"], inp["anns"])}
 
 
@@ -378,6 +454,8 @@ def _compare_eval_clip(inp, io, mo):
         a = {k: v for k, v in io.items() if k != "trace"}
         return None if a == mo else f"implementation {a} but model {mo}"
     a, b = io["val"], mo["val"]
+    if a["entries"] == "foreign":
+        return "a match names a sound event that is not in the clip that was evaluated"
     if not isinstance(a["entries"], list):
         return "evaluate_clip returns lists of different lengths"
     be = sorted(b["entries"], key=G.match_key)
@@ -404,7 +482,16 @@ def _holds_eval_clip(ctx, inp, io):
         return f"evaluate_clip raised ({io['raise']})"
     try:
         if isinstance(io["val"]["entries"], list):
-            return _judge_clip(ctx, 0, inp["preds"], inp["anns"], io["val"]["entries"])
+            es = io["val"]["entries"]
+            msg = _judge_clip(ctx, 0, inp["preds"], inp["anns"], es)
+            if msg:
+                return msg
+            two = [x for x in es if x["src"] is not None and x["tgt"] is not None]
+            wants = _pair_scores(ctx, inp, [(inp["anns"][x["tgt"]], inp["preds"][x["src"]]) for x in two])
+            for x, want in zip(two, wants):
+                if x["score"] in (None, "nan") or frac(x["score"]) != want:
+                    return (f"match score is not the probability of the annotation's class: {G._fl(x['score'])} instead of "
+                            f"{float(want)} (match {(x['src'], x['tgt'])})")
     except leanio.InfraError:
         raise
     except Exception as e:  # noqa: BLE001
@@ -442,8 +529,60 @@ OPS = {
 
 
 # ---------------------------------------------------------------- generators
+def _distinct_predicted(pool, clips):
+    """the predicted tags of one sound event are pairwise different tags (where two of them are the same tag
+    with different scores the property does not say which score is 'the' probability)"""
+    for c in clips:
+        for e in c.get("events", []):
+            seen, keep = set(), []
+            for t, sc in e["tags"]:
+                k = TP.ckey(pool[t])
+                if k not in seen:
+                    seen.add(k)
+                    keep.append([t, sc])
+            e["tags"] = keep
+
+
+def _pooled(rng, make, lo=1, hi=5):
+    """an evalgen detection input over the legacy pool (30 %), an adversarial tag pool, or the three-taxa pool"""
+    r = rng.random()
+    if r < 0.3:
+        return make(G.gen_vocab(rng, lo, hi))
+    if r < 0.45:
+        pool = [dict(d) for d in TP.TAXA]
+        vocab = [0, 1, 2] + rng.sample([3, 4, 5, 7], rng.choice([0, 0, 1, 2]))
+        rng.shuffle(vocab)
+    else:
+        pool = TP.gen_pool(rng)
+        vocab = G.gen_vocab(rng, lo, hi + 1)
+    inp = make(TP.dedupe_ids(pool, vocab))
+    inp["tagpool"] = pool
+    _distinct_predicted(pool, inp["predictions"])
+    return inp
+
+
+def _tag_tallies(ctx, inp):
+    if inp.get("tagpool") is None:
+        ctx.tally("tags:pool=legacy")
+        return
+    ctx.tally("tags:pool=adversarial")
+    pool = [TP.content(d) for d in inp["tagpool"]]
+    lv = lambda t: (t["term"]["label"], t["value"])  # noqa: E731
+    nv = lambda t: (t["term"]["name"], t["value"])  # noqa: E731
+    voc = [pool[t] for t in inp["vocab"]]
+    vkeys = {TP.jkey(t) for t in voc}
+    if len({lv(t) for t in voc}) < len(voc):
+        ctx.tally("tags:vocabulary-classes-share-label-and-value")
+    if len({nv(t) for t in voc}) < len(voc):
+        ctx.tally("tags:vocabulary-classes-share-name-and-value")
+    used = [pool[t] for side in ("annotations", "predictions") for c in inp.get(side, []) for e in c.get("events", [])
+            for t in (x[0] if isinstance(x, list) else x for x in e["tags"])]
+    if any(TP.jkey(t) not in vkeys and (lv(t) in {lv(v) for v in voc} or nv(t) in {nv(v) for v in voc}) for t in used):
+        ctx.tally("tags:near-miss-outside-vocabulary")
+
+
 def gen_detection(rng):
-    inp = G.gen_detection(rng, n_clips=rng.choice([0, 1, 1, 2, 3, 4]), vocab=G.gen_vocab(rng, 1, 5))
+    inp = _pooled(rng, lambda vocab: G.gen_detection(rng, n_clips=rng.choice([0, 1, 1, 2, 3, 4]), vocab=vocab))
     r = rng.random()
     if r < 0.03:
         inp["predictions"] = []
@@ -489,7 +628,7 @@ def _retype(rng, box, kinds):
 def gen_geo(rng):
     """detection inputs over all the geometry types `evaluate_clip` can meet, with boxes that are disjoint
     along both axes placed next to annotated ones"""
-    inp = G.gen_detection(rng, n_clips=rng.choice([1, 1, 2, 3]), vocab=G.gen_vocab(rng, 1, 5))
+    inp = _pooled(rng, lambda vocab: G.gen_detection(rng, n_clips=rng.choice([1, 1, 2, 3]), vocab=vocab))
     ann_by = {c["clip"]: c for c in inp["annotations"]}
     for c in inp["annotations"]:
         for e in c["events"]:
@@ -510,7 +649,13 @@ def gen_geo(rng):
     return inp
 
 
-def _exhaustive_clips():
+# tags 0 and 1 are two classes that differ only in the name of the term (same label, same value); tag 2 is outside
+# the vocabulary and differs from tag 0 only in the uri of the term
+_NEAR_POOL = [{"term": TP.T_GBIF, "value": "Turdus"}, {"term": TP.T_EBIRD, "value": "Turdus"},
+              {"term": TP.T_URI, "value": "Turdus"}]
+
+
+def _exhaustive_clips(tagpool=None):
     """0-2 predicted x 0-2 annotated events, geometry absent / A / B / C / D, fixed tags"""
     geoms = [None, "A", "B", "D", "E"]
     ptags = [[[0, "3/4"], [1, "1/8"]], [[1, "1/2"]]]
@@ -519,14 +664,20 @@ def _exhaustive_clips():
         for nann in range(3):
             for pg in itertools.product(geoms, repeat=npred):
                 for ag in itertools.product([None, "A", "C"], repeat=nann):
-                    yield {"vocab": [0, 1],
-                           "preds": [{"id": i, "geom": _BOXES.get(g), "tags": ptags[i % 2]} for i, g in enumerate(pg)],
-                           "anns": [{"id": 10 + j, "geom": _BOXES.get(g), "tags": atags[j % 2]} for j, g in enumerate(ag)]}
+                    case = {"vocab": [0, 1],
+                            "preds": [{"id": i, "geom": _BOXES.get(g), "tags": ptags[i % 2]} for i, g in enumerate(pg)],
+                            "anns": [{"id": 10 + j, "geom": _BOXES.get(g), "tags": atags[j % 2]} for j, g in enumerate(ag)]}
+                    if tagpool is not None:
+                        case["tagpool"] = tagpool
+                    yield case
 
 
 def gen_clip(rng):
-    d = G.gen_detection(rng, n_clips=1, vocab=G.gen_vocab(rng, 1, 5))
-    return {"vocab": d["vocab"], "preds": d["predictions"][0]["events"], "anns": d["annotations"][0]["events"]}
+    d = _pooled(rng, lambda vocab: G.gen_detection(rng, n_clips=1, vocab=vocab))
+    out = {"vocab": d["vocab"], "preds": d["predictions"][0]["events"], "anns": d["annotations"][0]["events"]}
+    if d.get("tagpool") is not None:
+        out["tagpool"] = d["tagpool"]
+    return out
 
 
 def _pair_cases(rng, n):
@@ -557,6 +708,7 @@ FINDING_MATCHERS = {"detection_no_labelled_truth": _f_no_labelled_truth}
 def _stage_detection(ctx, n):
     cases = [gen_detection(ctx.rng) for _ in range(n)]
     for c in cases:
+        _tag_tallies(ctx, c)
         ctx.tally(f"detection:clips={len(c['predictions'])}/{len(c['annotations'])}")
         for pc in c["predictions"]:
             for e in pc["events"]:
@@ -565,11 +717,17 @@ def _stage_detection(ctx, n):
 
 
 def _stage_clips(ctx, n):
-    ex = list(_exhaustive_clips())
+    ex = list(_exhaustive_clips()) + list(_exhaustive_clips(_NEAR_POOL))
     ctx.run_cases(OPS["eval_clip"], ex)
     ctx.exhaustive["evaluate_clip"] = (f"{len(ex)} clips: 0-2 predicted x 0-2 annotated events, geometry of each in "
-                                       "{none, A, half-overlapping B, touching C, far D}")
-    ctx.run_cases(OPS["eval_clip"], [gen_clip(ctx.rng) for _ in range(n)])
+                                       "{none, A, half-overlapping B, touching C, far D, diagonal E}, over the legacy tags "
+                                       "and over two classes that differ only in the term's name plus a near miss "
+                                       "(other uri) outside the vocabulary")
+    cases = [gen_clip(ctx.rng) for _ in range(n)]
+    for c in cases:
+        _tag_tallies(ctx, {"tagpool": c.get("tagpool"), "vocab": c["vocab"],
+                           "predictions": [{"events": c["preds"]}], "annotations": [{"events": c["anns"]}]})
+    ctx.run_cases(OPS["eval_clip"], cases)
 
 
 def _stage_geo(ctx, n):
@@ -793,4 +951,4 @@ def run(ctx):
 def search(ctx, failures):
     ctx.run_cases(OPS["detection_geo"], [gen_geo(ctx.rng) for _ in range(300)])
     ctx.run_cases(OPS["detection"], [gen_detection(ctx.rng) for _ in range(300)])
-    ctx.run_cases(OPS["eval_clip"], list(_exhaustive_clips()))
+    ctx.run_cases(OPS["eval_clip"], list(_exhaustive_clips()) + list(_exhaustive_clips(_NEAR_POOL)))
